@@ -405,10 +405,15 @@ def panic_sig(p):
                 try:
                     lines = open(c, encoding="utf-8", errors="replace").read().split("\n")
                     text = lines[line - 1].strip()
+                    k = line - 2
+                    while len(text) < 28 and k >= 0 and k >= line - 5:
+                        # a bare `.unwrap()` line says nothing: add the preceding lines of the expression
+                        text = lines[k].strip() + " " + text
+                        k -= 1
                 except Exception:
                     pass
                 break
         path = re.sub(r"^/repo/", "", path)
         path = re.sub(r"^.*/registry/src/[^/]+/", "dep:", path)
-        return "panic@%s::%s" % (path, text[:80])
+        return "panic@%s::%s" % (path, text[:100])
     return "panic@" + loc
